@@ -291,7 +291,7 @@ class AsyncSocks5Connection(AsyncConnectionInterface):
                             stream=stream,
                             keepalive_expiry=self._keepalive_expiry,
                         )
-                except Exception as exc:
+                except BaseException as exc:
                     self._connect_failed = True
                     # The stream to the proxy is not owned by any connection yet,
                     # so it has to be closed here if the negotiation fails.
